@@ -13,6 +13,12 @@ LEVEL_TEXT = ("Static analysis of /repo's current source (go/packages + go/ssa, 
 
 # id -> (technique, what is decided, design_ref)
 CLAIMED = {
+    "C08": ("must-pass-through / dominance / edge-sensitive reachability on the SSA of Buffer.Write/Read/Close, channel discipline (capacity, close-once, send-vs-close ordering), baton-pass rule, lockset; plus the Deadline typestate rules of C09 for the read deadline",
+            "token posted on every success path of Write under the lock; capacity>=1; re-test under lock after wake-up; EOF only on empty-then-closed; close exactly once with the flag; sends ordered with close; baton pass when data remains; deadline tested before and while waiting; lock balance; Deadline bookkeeping",
+            "DESIGN.md section 3 C08"),
+    "C09": ("typestate / counting analysis by exhaustive enumeration of the acyclic paths of Deadline.Set and the timer callback over abstract entry state x Stop() outcome x argument class",
+            "delta(pending) = #arms - [Stop()==true]; Stop exactly when started; arm xor close by argument class with the right final state; fresh done channel iff entry state exceeded; callback signals only when last and started, on the channel read under the lock",
+            "DESIGN.md section 3 C09"),
     "C19": ("lockset analysis (flow-sensitive must-locksets with caller-holds inference) + atomic/package-variable discipline + verified exemption table + lock balance",
             "guarded-by discipline for every field written after construction in vnet/packetio/deadline/udp/dpipe, atomic words never accessed plainly, run-time-written package variables synchronised, exemptions verified, locks balanced",
             "DESIGN.md section 3 C19"),
